@@ -33,9 +33,10 @@ RECIPES = {
     "os.getuid": [("d", [], [], "os.getuid()")],
     "os.getwd": [("d", [], [], "os.getwd()")],
     "os.hostname": [("d", [], [], "os.hostname()")],
-    "os.lookup_gid": [("d", [], [], 'os.lookup_gid("0")')],
+    "os.lookup_gid": [("d", [], [], 'os.lookup_gid("0")'), ("int", [], [], "os.lookup_gid(0)")],
     "os.lookup_group": [("d", [], [], 'os.lookup_group("root")')],
-    "os.lookup_uid": [("d", [], [], 'os.lookup_uid("0")')],
+    # (argument of another type: whatever the call does with it, an answer comes from the host OS)
+    "os.lookup_uid": [("d", [], [], 'os.lookup_uid("0")'), ("int", [], [], "os.lookup_uid(0)")],
     "os.lookup_user": [("d", [], [], 'os.lookup_user("root")')],
     "os.mkdir": [("d", [], [], 'os.mkdir("newdir")')],
     "os.mkdir_all": [("d", [], [], 'os.mkdir_all("newdir/a/b")')],
